@@ -29,10 +29,17 @@ from .rules_cw import DGN, TRY_DESTRUCT
 RANK = {"Relaxed": 0, "Acquire": 1, "Release": 1, "AcqRel": 2, "SeqCst": 3}
 
 
+_ORD_BY_DISCR = ["Relaxed", "Release", "Acquire", "AcqRel", "SeqCst"]      # declaration order of atomic::Ordering
+
+
 def ord_of(t):
     t = strip(t)
     if isinstance(t, tuple) and t[0] == "agg" and t[1].endswith("Ordering") and t[2] in RANK:
         return t[2]
+    # `const PUBLISH: Ordering = Ordering::Release;` reaches the call as an evaluated constant (its discriminant)
+    if isinstance(t, tuple) and t[0] == "c" and isinstance(t[1], int) and str(t[2]).endswith("Ordering") and \
+            0 <= t[1] < len(_ORD_BY_DISCR):
+        return _ORD_BY_DISCR[t[1]]
     return None
 
 
